@@ -190,6 +190,12 @@ Section RunGen.
     - cbn [length firstn]. eapply ExGo; eauto.
   Qed.
 
+  Lemma run_final_In cs c idx c' idx' ls : run cs c idx = Ok (c', idx', ls) -> In c' (chks c ls).
+  Proof.
+    intros H. apply run_exec in H as (g & rest & _ & Hex).
+    rewrite (exec_final_nth _ _ _ _ _ _ _ _ Hex). apply nth_chks_In. apply le_n.
+  Qed.
+
   (** run level: prefixes *)
   Lemma run_prefix cs c idx c' idx' ls :
     run cs c idx = Ok (c', idx', ls) ->
@@ -470,6 +476,10 @@ Section Kinds.
   Lemma plain_reload_ok (c : pchk K) : wf_pchk c = true -> exists c', plain_reload c = Ok c' /\ c' = c.
   Proof. intros H. exists c. split; [apply pchk_roundtrip; exact H|reflexivity]. Qed.
 
+  Lemma plain_final_In d cb cs (c : pchk K) idx c' idx' ls :
+    plain_run strm ps f d cb cs c idx = Ok (c', idx', ls) -> In c' (chks _ _ c ls).
+  Proof. unfold plain_run. apply run_final_In. Qed.
+
   Lemma plain_pieces d cb p0 pcs cs (c : pchk K) idx c' idx' ls :
     plain_run strm ps f d cb cs c idx = Ok (c', idx', ls) ->
     p0 ++ concat pcs = firstn (length ls) cs ->
@@ -621,6 +631,10 @@ Section Kinds.
     apply vchk_dim_textual.
   Qed.
 
+  Lemma vegas_final_In d cb cs (c : vchk K) idx c' idx' ls :
+    vegas_run L strm ps f d cb cs c idx = Ok (c', idx', ls) -> In c' (chks _ _ (vchk_dimensions c d) ls).
+  Proof. unfold vegas_run. apply run_final_In. Qed.
+
   Lemma vegas_pieces d cb p0 pcs cs (c : vchk K) idx c' idx' ls :
     (forall x y, vchk_eqv x y -> cb x = cb y) ->
     vegas_run L strm ps f d cb cs c idx = Ok (c', idx', ls) ->
@@ -744,6 +758,10 @@ Section Kinds.
     apply mchk_chan_eqv; assumption.
   Qed.
 
+  Lemma mc_final_In d n cb cs (c : mchk K) idx c' idx' ls :
+    mc_run L strm ps f mp d n cb cs c idx = Ok (c', idx', ls) -> In c' (chks _ _ (mchk_channels c n) ls).
+  Proof. unfold mc_run. apply run_final_In. Qed.
+
   Lemma mc_pieces d n cb p0 pcs cs (c : mchk K) idx c' idx' ls :
     (forall x y, mchk_eqv x y -> cb x = cb y) ->
     mc_run L strm ps f mp d n cb cs c idx = Ok (c', idx', ls) ->
@@ -766,4 +784,199 @@ Section Kinds.
     exists d', ls'. split; [exact Hp|]. split; [exact He|]. split; [exact Hl|].
     symmetry; apply mchk_eqv_ser; exact He.
   Qed.
+
+  (** ** appending calls lists, for the three drivers *)
+  Lemma plain_run_app d cb cs1 cs2 (c : pchk K) idx c1 idx1 ls1 :
+    plain_run strm ps f d cb cs1 c idx = Ok (c1, idx1, ls1) -> Forall (fun l => il_continue l = true) ls1 ->
+    plain_run strm ps f d cb (cs1 ++ cs2) c idx =
+      match plain_run strm ps f d cb cs2 c1 idx1 with
+      | Ok (c2, idx2, ls2) => Ok (c2, idx2, ls1 ++ ls2)
+      | UB e => UB e
+      end.
+  Proof. unfold plain_run. apply run_app. apply base_gen_add. Qed.
+
+  Lemma vegas_run_app d cb cs1 cs2 (c : vchk K) idx c1 idx1 ls1 :
+    vegas_run L strm ps f d cb cs1 c idx = Ok (c1, idx1, ls1) -> Forall (fun l => il_continue l = true) ls1 ->
+    vegas_run L strm ps f d cb (cs1 ++ cs2) c idx =
+      match vegas_run L strm ps f d cb cs2 c1 idx1 with
+      | Ok (c2, idx2, ls2) => Ok (c2, idx2, ls1 ++ ls2)
+      | UB e => UB e
+      end.
+  Proof.
+    exact (drun_app (vchk K) (vegasres K) (event K) (fun c => base_gen (vc_base c)) vegas_iter vchk_add cb
+             (fun c r g => base_gen_add (vc_base c) r g)
+             (fun c => vchk_dimensions c d) (fun c => vchk_dim_dim c d) (fun c r g _ => vchk_dim_add c r g d)
+             cs1 cs2 c idx c1 idx1 ls1).
+  Qed.
+
+  Lemma mc_run_app d n cb cs1 cs2 (c : mchk K) idx c1 idx1 ls1 :
+    mc_run L strm ps f mp d n cb cs1 c idx = Ok (c1, idx1, ls1) -> Forall (fun l => il_continue l = true) ls1 ->
+    mc_run L strm ps f mp d n cb (cs1 ++ cs2) c idx =
+      match mc_run L strm ps f mp d n cb cs2 c1 idx1 with
+      | Ok (c2, idx2, ls2) => Ok (c2, idx2, ls1 ++ ls2)
+      | UB e => UB e
+      end.
+  Proof.
+    exact (drun_app (mchk K) (mcres_mc K) (event K) (fun c => base_gen (mc_base c)) (mc_iter d) mchk_add cb
+             (fun c r g => base_gen_add (mc_base c) r g)
+             (fun c => mchk_channels c n) (fun c => mchk_chan_chan c n) (fun c r g H => mchk_chan_add c r g n H)
+             cs1 cs2 c idx c1 idx1 ls1).
+  Qed.
+
+  (** ** the relation "textually identical", bundled *)
+  Lemma vchk_eqv_laws :
+    (forall c : vchk K, vchk_eqv c c) /\ (forall c c' : vchk K, vchk_eqv c c' -> vchk_eqv c' c) /\
+    (forall a b c : vchk K, vchk_eqv a b -> vchk_eqv b c -> vchk_eqv a c).
+  Proof. split; [exact vchk_eqv_refl|]. split; [exact vchk_eqv_sym|exact vchk_eqv_trans]. Qed.
+
+  Lemma vchk_eqv_text :
+    (forall c c', vchk_eqv c c' -> ser_vchk digits10 c = ser_vchk digits10 c') /\
+    (forall c c' t, wf_vchk c = true -> wf_vchk c' = true ->
+       ser_vchk digits10 c = Ok t -> ser_vchk digits10 c' = Ok t -> vchk_eqv c c') /\
+    (forall c, wf_vchk c = true -> vchk_textual c -> exists c', vchk_reload c = Ok c' /\ vchk_eqv c' c).
+  Proof.
+    split; [exact vchk_eqv_ser|]. split; [exact vchk_ser_eqv|].
+    intros c H1 H2. apply vchk_reload_ok. split; assumption.
+  Qed.
+
+  Lemma mchk_eqv_laws :
+    (forall c : mchk K, mchk_eqv c c) /\ (forall c c' : mchk K, mchk_eqv c c' -> mchk_eqv c' c) /\
+    (forall a b c : mchk K, mchk_eqv a b -> mchk_eqv b c -> mchk_eqv a c).
+  Proof. split; [exact mchk_eqv_refl|]. split; [exact mchk_eqv_sym|exact mchk_eqv_trans]. Qed.
+
+  Lemma mchk_eqv_text :
+    (forall c c', mchk_eqv c c' -> ser_mchk digits10 c = ser_mchk digits10 c') /\
+    (forall c c', wf_mchk c = true -> wf_mchk c' = true ->
+       ser_mchk digits10 c = ser_mchk digits10 c' -> mchk_eqv c c') /\
+    (forall c, wf_mchk c = true -> exists c', mchk_reload c = Ok c' /\ mchk_eqv c' c).
+  Proof. split; [exact mchk_eqv_ser|]. split; [exact mchk_ser_eqv|exact mchk_reload_ok]. Qed.
+
+  Lemma pchk_text :
+    (forall c c' : pchk K, wf_pchk c = true -> wf_pchk c' = true ->
+       ser_pchk digits10 c = ser_pchk digits10 c' -> c = c') /\
+    (forall c : pchk K, wf_pchk c = true -> plain_reload c = Ok c).
+  Proof. split; [exact (pchk_ser_inj digits10)|]. intros c H. apply pchk_roundtrip. exact H. Qed.
+
+  Lemma builtin_cb_text target :
+    (forall c c' : vchk K, vchk_eqv c c' -> cb_vegas target c = cb_vegas target c') /\
+    (forall c c' : mchk K, mchk_eqv c c' -> cb_mc target c = cb_mc target c').
+  Proof. split; [apply cb_vegas_eqv|apply cb_mc_eqv]. Qed.
 End Kinds.
+
+(* ================================================================================================ *)
+(** * non-vacuity: real runs in double precision (3 VEGAS iterations from Lemmas_C19, 2 PLAIN iterations
+    from Lemmas_C12, 3 multi-channel iterations with two channels); every checkpoint shown to the
+    callback is well formed, so all hypotheses of the theorems hold for them *)
+From HepMC Require Import NumB Lemmas_C12 Lemmas_C19.
+
+Definition exr_vegas_c0 : vchk B64 := vchk_default 4 (one B64) 0.
+Definition exr_vegas_check : bool :=
+  match ex19_run with
+  | Ok (c, _, ls) => Nat.eqb (length ls) 3 && forallb wf_vchk (chks _ _ (vchk_dimensions exr_vegas_c0 1) ls)
+  | UB _ => false
+  end.
+Lemma exr_vegas_check_ok : exr_vegas_check = true.
+Proof. vm_compute. reflexivity. Qed.
+
+Lemma exr_vegas : exists c idx' ls,
+  vegas_run ex19_L ex19_strm [] ex19_f 1 (fun _ => true) [8; 8; 8]%N exr_vegas_c0 0 = Ok (c, idx', ls) /\
+  length ls = 3 /\ length (b_gens (vc_base exr_vegas_c0)) = S (length (b_results (vc_base exr_vegas_c0))) /\
+  (forall x, In x (chks _ _ (vchk_dimensions exr_vegas_c0 1) ls) -> wf_vchk x = true).
+Proof.
+  pose proof exr_vegas_check_ok as H. unfold exr_vegas_check in H. change ex19_run with
+    (vegas_run ex19_L ex19_strm [] ex19_f 1 (fun _ => true) [8; 8; 8]%N exr_vegas_c0 0) in H. revert H.
+  destruct (vegas_run ex19_L ex19_strm [] ex19_f 1 (fun _ => true) [8; 8; 8]%N exr_vegas_c0 0) as [[[c i] ls]|e];
+    intros H; [|discriminate].
+  exists c, i, ls. split; [reflexivity|]. apply andb_true_iff in H as [H1 H2].
+  split; [apply Nat.eqb_eq; exact H1|]. split; [reflexivity|]. rewrite forallb_forall in H2. exact H2.
+Qed.
+
+Definition exr_plain_c0 : pchk B64 := base_init 0%N.
+Definition exr_plain_check : bool :=
+  match ex_run with
+  | Ok (c, _, ls) => Nat.eqb (length ls) 2 && forallb wf_pchk (chks _ _ exr_plain_c0 ls)
+  | UB _ => false
+  end.
+Lemma exr_plain_check_ok : exr_plain_check = true.
+Proof. vm_compute. reflexivity. Qed.
+
+Lemma exr_plain : exists c idx' ls,
+  plain_run ex_strm [] ex_f 1 (cb_plain (zero B64)) [3; 3]%N exr_plain_c0 0 = Ok (c, idx', ls) /\
+  length ls = 2 /\ length (b_gens exr_plain_c0) = S (length (b_results exr_plain_c0)) /\
+  (forall x, In x (chks _ _ exr_plain_c0 ls) -> wf_pchk x = true).
+Proof.
+  pose proof exr_plain_check_ok as H. unfold exr_plain_check in H. change ex_run with
+    (plain_run ex_strm [] ex_f 1 (cb_plain (zero B64)) [3; 3]%N exr_plain_c0 0) in H. revert H.
+  destruct (plain_run ex_strm [] ex_f 1 (cb_plain (zero B64)) [3; 3]%N exr_plain_c0 0) as [[[c i] ls]|e];
+    intros H; [|discriminate].
+  exists c, i, ls. split; [reflexivity|]. apply andb_true_iff in H as [H1 H2].
+  split; [apply Nat.eqb_eq; exact H1|]. split; [reflexivity|]. rewrite forallb_forall in H2. exact H2.
+Qed.
+
+(* two channels with identical unit densities; coordinates = the random numbers *)
+Definition exr_mp : mcmap B64 :=
+  mk_mcmap (fun _ _ us _ => us) (fun _ _ _ _ _ => (one B64, [one B64; one B64])).
+Definition exr_mc_c0 : mchk B64 := mchk_default (zero B64) (one B64) 0.
+Definition exr_mc_run :=
+  mc_run ex19_L ex19_strm [] ex19_f exr_mp 1 2 (fun _ => true) [4; 4; 4]%N exr_mc_c0 0.
+Definition exr_mc_check : bool :=
+  match exr_mc_run with
+  | Ok (c, _, ls) => Nat.eqb (length ls) 3 && forallb wf_mchk (chks _ _ (mchk_channels exr_mc_c0 2) ls)
+  | UB _ => false
+  end.
+Lemma exr_mc_check_ok : exr_mc_check = true.
+Proof. vm_compute. reflexivity. Qed.
+
+Lemma exr_mc : exists c idx' ls,
+  mc_run ex19_L ex19_strm [] ex19_f exr_mp 1 2 (fun _ => true) [4; 4; 4]%N exr_mc_c0 0 = Ok (c, idx', ls) /\
+  length ls = 3 /\ length (b_gens (mc_base exr_mc_c0)) = S (length (b_results (mc_base exr_mc_c0))) /\
+  (forall x, In x (chks _ _ (mchk_channels exr_mc_c0 2) ls) -> wf_mchk x = true).
+Proof.
+  pose proof exr_mc_check_ok as H. unfold exr_mc_check, exr_mc_run in H. revert H.
+  destruct (mc_run ex19_L ex19_strm [] ex19_f exr_mp 1 2 (fun _ => true) [4; 4; 4]%N exr_mc_c0 0) as [[[c i] ls]|e];
+    intros H; [|discriminate].
+  exists c, i, ls. split; [reflexivity|]. apply andb_true_iff in H as [H1 H2].
+  split; [apply Nat.eqb_eq; exact H1|]. split; [reflexivity|]. rewrite forallb_forall in H2. exact H2.
+Qed.
+
+
+(* the composition theorems applied: the three iterations run one at a time, with the checkpoint written
+   to text and read back in between, end in a checkpoint with the same text as the uninterrupted run *)
+Lemma ex03_vegas_pieces : exists c idx' ls d' ls',
+  vegas_run ex19_L ex19_strm [] ex19_f 1 (fun _ => true) [8; 8; 8]%N exr_vegas_c0 0 = Ok (c, idx', ls) /\
+  run_pieces (vegas_run ex19_L ex19_strm [] ex19_f 1 (fun _ => true)) (vchk_reload "17") [8]%N [[8]; [8]]%N exr_vegas_c0 0
+    = Ok (d', idx', ls') /\
+  ser_vchk "17" d' = ser_vchk "17" c.
+Proof.
+  destruct exr_vegas as (c & i & ls & H & Hl & _ & Hwf).
+  destruct (vegas_pieces ex19_L ex19_strm [] ex19_f "17" 1 (fun _ => true) [8]%N [[8]; [8]]%N [8; 8; 8]%N
+              exr_vegas_c0 0 c i ls (fun _ _ _ => eq_refl) H) as (d' & ls' & A & _ & _ & B & _).
+  - rewrite Hl. reflexivity.
+  - exact Hwf.
+  - exists c, i, ls, d', ls'. split; [exact H|]. split; [exact A|exact B].
+Qed.
+
+Lemma ex03_plain_pieces : exists c idx' ls,
+  plain_run ex_strm [] ex_f 1 (cb_plain (zero B64)) [3; 3]%N exr_plain_c0 0 = Ok (c, idx', ls) /\
+  run_pieces (plain_run ex_strm [] ex_f 1 (cb_plain (zero B64))) (plain_reload "17") [3]%N [[3]]%N exr_plain_c0 0
+    = Ok (c, idx', ls).
+Proof.
+  destruct exr_plain as (c & i & ls & H & Hl & _ & Hwf). exists c, i, ls. split; [exact H|].
+  apply (plain_pieces ex_strm [] ex_f "17" 1 (cb_plain (zero B64)) [3]%N [[3]]%N [3; 3]%N exr_plain_c0 0 c i ls H).
+  - rewrite Hl. reflexivity.
+  - exact Hwf.
+Qed.
+
+Lemma ex03_mc_pieces : exists c idx' ls d' ls',
+  mc_run ex19_L ex19_strm [] ex19_f exr_mp 1 2 (fun _ => true) [4; 4; 4]%N exr_mc_c0 0 = Ok (c, idx', ls) /\
+  run_pieces (mc_run ex19_L ex19_strm [] ex19_f exr_mp 1 2 (fun _ => true)) (mchk_reload "17") [4; 4]%N [[]; [4]]%N exr_mc_c0 0
+    = Ok (d', idx', ls') /\
+  ser_mchk "17" d' = ser_mchk "17" c.
+Proof.
+  destruct exr_mc as (c & i & ls & H & Hl & _ & Hwf).
+  destruct (mc_pieces ex19_L ex19_strm [] ex19_f exr_mp "17" 1 2 (fun _ => true) [4; 4]%N [[]; [4]]%N [4; 4; 4]%N
+              exr_mc_c0 0 c i ls (fun _ _ _ => eq_refl) H) as (d' & ls' & A & _ & _ & B).
+  - rewrite Hl. reflexivity.
+  - exact Hwf.
+  - exists c, i, ls, d', ls'. split; [exact H|]. split; [exact A|exact B].
+Qed.
